@@ -22,6 +22,7 @@ var yamlStrings = []string{
 	"'", "''", "\"", "\\", "a'b", "a\"b", "a\\b", "\\n", " ", "  ", " a", "a ", " a ", "\t", "a\tb", "\ta", "\n", "a\nb", "a\n", "\na", "a\n\nb", "a\r\nb", "\r", "a\n  b", "  a\nb",
 	"\u0085", "a\u0085b", "\u2028", "\u2029", "\uFEFF", "\uFEFFa", "\u0000", "a\u0000b", "\u0001", "\u001b[0m", "\u007f", "\u00a0", "é", "日本語", "\U0001F600", "a\U0001F600b", "\u00e9\n\u00e9",
 	",]", ", }", "x{2,}", "[1,]", "a,]", "{\"a\":1,}", "---", "...", "--- a", "key: [1, 2]", "x: |\n  y", "multi\nline\ntext\n", "trailing colon:", "question? mark", "- - a", "a: - b", "<<: *a", "!!binary aGk=", "0.0", "-0", "00", "1e", "e1", "0x", "++1", "1.2.3", "1,000", "١٢٣",
+	"..", ".", "--", ".-", "-.", "....", "-.-", ".. ..", "--.", "-- -", "_", "__", "~~", "=", "==", "::", "//", "\\\\", "##",
 }
 
 var yamlNumbers = []float64{0, 1, -1, 2147483647, 2147483648, -2147483649, 9007199254740991, 9007199254740992, 9007199254740993, 9223372036854775807, 9223372036854775808, 18446744073709551615, 18446744073709551616,
@@ -171,7 +172,7 @@ func init() {
 		Rule: "documents over a table of ~190 hostile strings (every YAML 1.1 spelling of booleans/null, number-like, dates, indicator characters, quotes, whitespace, control characters, NEL/LS/PS/BOM, multi-line, non-ASCII, non-BMP) used as values AND keys, integral and fractional numbers incl. 2^31, 2^53+-1, 2^63, 2^64, empty containers everywhere; " +
 			"each document is written as YAML by an independent emitter in four styles and must read equal to its JSON form (reference canon, jd Equals both ways, empty diff); jd's Yaml()/Json() output must read back equal; CLI translations and -yaml diff/patch must preserve content; " +
 			"non-trivial = every document; distinct = distinct JSON texts",
-		Floors: map[string]int{"yaml_roundtrip_ok": 15000, "json_roundtrip_ok": 15000, "emitter_style:block/plain-when-safe": 15000, "hostile_string_as_key": 5000, "cli_translations": 300, "cli_yaml_diff_patch": 100, "integer_literals": 20},
+		Floors: map[string]int{"yaml_roundtrip_ok": 15000, "json_roundtrip_ok": 15000, "emitter_style:block/plain-when-safe": 15000, "hostile_string_as_key": 5000, "cli_translations": 300, "cli_yaml_diff_patch": 100, "cli_carriers_under_loose_flags": 100, "integer_literals": 20},
 		Assumptions: []string{
 			"JSON documents with string keys only; YAML features with no JSON counterpart (tags, non-string keys, anchors) are outside the property",
 			"the YAML side of (i) comes from the harness's own emitter (ref.YamlEmit), never from yaml.v2's writer; reading JSON text through the YAML reader is not part of the property",
@@ -314,6 +315,38 @@ func init() {
 				if rp.Status != 0 || err != nil || !ref.Eq(Plain(Y), b, ref.List) {
 					c.Violation("jd -yaml -p does not reproduce b", map[string]any{"a.yaml": ay, "diff": r.Stdout, "stdout": rp.Stdout, "stderr": rp.Stderr, "b": ref.ToJSON(b)})
 					return
+				}
+				// the two carriers under flags that loosen equality: a patch whose effect those flags cannot
+				// see (members moved, numbers moved within the tolerance) is still applied, on both carriers alike
+				type loose struct {
+					flags []string
+					b2    any
+				}
+				var ls []loose
+				if re := reorder(c.R, ref.Clone(a), false); !ref.Eq(re, a, ref.List) {
+					ls = append(ls, loose{[]string{"-mset"}, re}, loose{[]string{"-set"}, re})
+				}
+				if jt := jitterNumbers(c.R, a, 0.1); !ref.Eq(jt, a, ref.List) {
+					ls = append(ls, loose{[]string{"-precision", "0.1"}, jt})
+				}
+				for _, l := range ls {
+					p := ReadJ(aj).Diff(ReadJ(ref.ToJSON(l.b2))).Render()
+					for _, bin := range []Binary{BinV2, BinTop} {
+						rj := RunCLI(c, bin, append(append([]string{}, l.flags...), "-p", "p.diff", "a.json"), "", map[string]string{"p.diff": p, "a.json": aj})
+						ry := RunCLI(c, bin, append(append([]string{}, l.flags...), "-yaml", "-p", "p.diff", "a.yaml"), "", map[string]string{"p.diff": p, "a.yaml": ay})
+						c.Feature("cli_carriers_under_loose_flags")
+						vj, e1 := ref.FromJSON(rj.Stdout)
+						var vy any
+						Y, e2 := jd.ReadYamlString(ry.Stdout)
+						if e2 == nil {
+							vy = Plain(Y)
+						}
+						if rj.Status != ry.Status || (rj.Status == 0 && (e1 != nil || e2 != nil || !ref.Eq(vj, vy, ref.List))) {
+							c.Violation(bin.Name+" "+strings.Join(l.flags, " ")+" -p: the YAML carrier and the JSON carrier give different documents for the same patch",
+								map[string]any{"diff": p, "json_carrier": rj.Stdout, "yaml_carrier": ry.Stdout, "stderr_json": rj.Stderr, "stderr_yaml": ry.Stderr})
+							return
+						}
+					}
 				}
 			}
 		},
